@@ -130,7 +130,11 @@ def random_history(rnd, p, length):
     bps = p.avail + p.avail + [hx(b'm') + ':%d' % rnd.randint(0, 30), hx(b'zz') + ':1']
     for _ in range(length):
         k = rnd.random()
-        if k < 0.12:
+        if k < 0.03:
+            hist.append('k')       # keep value copies of the activation objects
+        elif k < 0.06:
+            hist.append('q')       # refresh the views of the kept copies (those still inside the data segment)
+        elif k < 0.12:
             hist.append('v')       # inspect every activation and the locations
         elif k < 0.3:
             hist.append('s')
@@ -273,6 +277,15 @@ def debugger_suite(ctx, n_random, hist_len, exhaustive_len, big=False):
             o = impl(ctx, ['GEN ' + files_req(b'm', {b'm': src.encode()})])[0]
             if not is_crash(o) and fields(o).get('ok') == '1':
                 cases.append({'defs': [], 'main': [], 'files': {b'm': src.encode()}, 'mainf': b'm', 'text': src, 'prog': Prog(fields(o)), 'bigfixed': True})
+    # two callees with frames of different sizes called one after the other (an activation object of the first kept while
+    # the second runs)
+    for src in ("PROGRAM h IN u, v DO x0 := u END\nPROGRAM f IN a DO\n  b := RUN h WITH a + 1, a + 2 END;\n  b := b + 1\nEND\n"
+                "PROGRAM g IN p, q, r DO\n  p := q;\n  q := r\nEND\nx1 := RUN f WITH 1 END;\nx2 := RUN g WITH 1, 2, 3 END;\nx3 := 4\n",
+                "PROGRAM g IN p DO\n  p := p + 1\nEND\nPROGRAM f IN a, b, c, d DO\n  a := RUN g WITH b END;\n  b := c\nEND\n"
+                "LOOP x0 DO x1 := 1 END;\nx1 := RUN f WITH 1, 2, 3, 4 END;\nx2 := RUN g WITH RUN g WITH 5 END END;\nx3 := 4\n"):
+        o = impl(ctx, ['GEN ' + files_req(b'm', {b'm': src.encode()})])[0]
+        if not is_crash(o) and fields(o).get('ok') == '1':
+            cases.append({'defs': [], 'main': [], 'files': {b'm': src.encode()}, 'mainf': b'm', 'text': src, 'prog': Prog(fields(o)), 'twocallees': True})
     # non-canonical layouts: several statements per line, headers sharing a line with other code, pieces in included files
     from checks import front as _front
     for (m, f, meta) in _front.program_files(ctx, n_random // 3, mutate_frac=0.0, multi_frac=0.6, big=big):
@@ -353,6 +366,22 @@ def debugger_suite(ctx, n_random, hist_len, exhaustive_len, big=False):
         if c.get('deep'):
             jobs.append((c, ['e', 'v', 'e', 'e', 'v']))
             jobs.append((c, ['s'] * (4 * c['deep'] + 40) + ['v', 'e', 'v']))
+    # activation objects kept across calls and returns: copies taken at every stop of a stepping run, refreshed later
+    for c in keep:
+        if c['defs'] is not None and c['defs'] != [] and len(c['defs']) >= 1:
+            r = ctx.rnd
+            h = ['t1']
+            for _ in range(r.randint(4, 30)):
+                h += ['e'] + (['k'] if r.random() < 0.4 else []) + (['q'] if r.random() < 0.5 else [])
+            jobs.append((c, h + ['t0', 'e', 'q', 'v']))
+    for c in keep:
+        if c.get('twocallees') or (c['defs'] and len(c['defs']) >= 2):
+            # one copy taken at the j-th stop, refreshed at every later stop
+            for j in range(1, 9):
+                jobs.append((c, ['t1'] + ['e'] * j + ['k'] + ['e', 'q'] * 16 + ['v']))
+    for c in [k_ for k_ in keep if k_['defs'] is None]:
+        jobs.append((c, ['t1'] + ['e', 'k', 'e', 'q'] * 12 + ['v']))
+        jobs.append((c, ['s', 'k'] * 3 + ['s', 'q'] * 40 + ['v']))
     # every available line enabled at once, then run: a stale or misplaced site shows up as a changed computation
     for c in keep:
         if c['defs'] is not None and len(c.get('files', {})) > 1:
@@ -495,15 +524,22 @@ def hypotheses_on_programs(ctx, cases):
             ctx.violation('hypothesis-' + bad.split(':')[0], 'a compiled program violates a hypothesis of the VM theorems: ' + bad, {'source': c['text']})
 
 
+BOUNDARY_LITS = ['0', '7', '2147483645', '2147483646', '2147483647', '2147483648', '4294967295', '4294967296', '4294967297',
+                 '9223372036854775807', '9223372036854775808', '18446744073709551616', '99999999999999999999', '1' + '0' * 24]
+LITERAL_TEMPLATES = ['x0 := %s\n', 'x0 := x1 + %s\n', 'x0 := x1 - %s\n', 'IF x0 = %s THEN GOTO m; m: x1 := 1\n',
+                     'PROGRAM f IN a DO x0 := a END\nx1 := RUN f WITH %s END\n',
+                     'DEFINE PRIO %s foo AS x0 := 1 END DEFINE\nfoo\n', 'DEFINE foo <ID> AS $%s := 1 END DEFINE\nfoo x\n',
+                     # in a definition that is used and later redefined; in a definition that is never called
+                     'PROGRAM f IN a DO x0 := %s END\nPROGRAM g IN a DO x0 := RUN f WITH a END END\nPROGRAM f IN a DO x0 := a END\nx1 := RUN g WITH 1 END\n',
+                     'PROGRAM f IN a DO x0 := a + %s END\nx1 := 1\n']
+
+
 def literal_guard_oracle(ctx):
     """integer literals and priorities that do not fit the word are rejected at compile time"""
-    lits = ['0', '7', '2147483645', '2147483646', '2147483647', '2147483648', '4294967295', '4294967296', '4294967297',
-            '9223372036854775807', '9223372036854775808', '18446744073709551616', '99999999999999999999', '1' + '0' * 24]
+    lits = list(BOUNDARY_LITS)
     for _ in range(ctx.n(10, 60)):
         lits.append(str(ctx.rnd.choice([2 ** 31 - 1, 2 ** 32, 2 ** 63, 10 ** ctx.rnd.randint(1, 24)]) + ctx.rnd.randint(-3, 3)))
-    tmpl = ['x0 := %s\n', 'x0 := x1 + %s\n', 'x0 := x1 - %s\n', 'IF x0 = %s THEN GOTO m; m: x1 := 1\n',
-            'PROGRAM f IN a DO x0 := a END\nx1 := RUN f WITH %s END\n',
-            'DEFINE PRIO %s foo AS x0 := 1 END DEFINE\nfoo\n', 'DEFINE foo <ID> AS $%s := 1 END DEFINE\nfoo x\n']
+    tmpl = LITERAL_TEMPLATES
     cases = [(t % l, l, k) for l in lits for k, t in enumerate(tmpl)]
     reqs = ['GEN ' + files_req(b'm', {b'm': c[0].encode()}) for c in cases]
     a = impl(ctx, reqs)
